@@ -1,5 +1,5 @@
 (* C08Proofs.v — lemmas behind props/C08.v *)
-From SV Require Import Base Json MD5 Canon FS Ws WsLemmas Cache CacheLemmas.
+From SV Require Import Base Json MD5 Canon FS Ws WsLemmas Cache CacheLemmas CorrC01 CorrC08.
 
 Section P.
   Variable frepr : fl -> str.
@@ -190,17 +190,17 @@ Section P.
     destruct (rename f (spf oi) (spt oi)) as [f1|e] eqn:E1.
     - assert (W1 : ws_only f f1) by (eapply rename_ws_only; eauto; reflexivity).
       destruct (rename f1 (jdir oi) (jdir ni)) as [f2|e2] eqn:E2.
-      + eapply POST; [|exact E]. eapply ws_only_trans; [exact W1|]. eapply rename_ws_only; eauto; reflexivity.
+      + eapply (POST f2 true); [|exact E]. eapply ws_only_trans; [exact W1|]. eapply rename_ws_only; eauto; reflexivity.
       + destruct (rename f1 (spt oi) (spf oi)) as [f3|e3] eqn:E3.
         * assert (W3 : ws_only f f3).
           { eapply ws_only_trans; [exact W1|]. eapply rename_ws_only; eauto; reflexivity. }
           destruct (dest_exists_errno e2).
           -- inversion E; subst. eapply (Inv_ws_only f f'); [exact (proj2 H)|exact W3|auto].
           -- destruct e2; try (inversion E; subst; eapply (Inv_ws_only f f'); [exact (proj2 H)|exact W3|auto]).
-             eapply POST; [exact W3|exact E].
+             eapply (POST f3 false); [exact W3|exact E].
         * inversion E; subst. eapply (Inv_ws_only f f'); [exact (proj2 H)|exact W1|auto].
     - destruct e; try (inversion E; subst; eapply (Inv_ws_only f' f'); [exact (proj2 H)|apply ws_only_refl|auto]).
-      eapply POST; [apply ws_only_refl|exact E].
+      eapply (POST f false); [apply ws_only_refl|exact E].
   Qed.
 
   (* ---- update_cache *)
@@ -265,4 +265,571 @@ Section P.
     rewrite (get_unlink _ _ _ CACHEP E), path_eqb_refl in Hc. discriminate.
   Qed.
 
+
+  (* ================================================================ B. transparency *)
+  (* what the workspace itself says about job i *)
+  Definition wsv (f : fs) (i : str) : option json :=
+    match get f (spf i) with Some (File c) => loads_s (c_bytes c) | _ => None end.
+
+  (* an uncorrupted workspace: every listed directory holds a file that both decoders read as the same
+     mapping, whose id is the directory name *)
+  Definition ws_intact (f : fs) : Prop := forall i, In i (listing f) ->
+    exists c v, get f (spf i) = Some (File c) /\ loads_s (c_bytes c) = Some v /\ loads_b (c_bytes c) = DVal v
+                /\ cid v = i /\ is_objb v = true.
+
+  (* no two DIFFERENT values among those at hand share an id (MD5 collision freedom on this finite set) *)
+  Definition coll_free (f : fs) (vals : list json) : Prop :=
+    forall i w v, In i (listing f) -> wsv f i = Some w -> In v vals -> cid v = cid w -> norm v = norm w.
+
+  Definition file_vals (f : fs) : list json := match cache_file f with Some c => map snd c | None => [] end.
+
+  (* cached values agree with the workspace up to key order *)
+  Definition agrees (f : fs) (c : cache) : Prop :=
+    forall i v w, In (i, v) c -> In i (listing f) -> wsv f i = Some w -> norm v = norm w.
+  Definition Agr (f : fs) (s : sess) : Prop :=
+    agrees f (s_cache s) /\ (forall c, cache_file f = Some c -> agrees f c).
+
+  Lemma ws_intact_wsv : forall f i, ws_intact f -> In i (listing f) ->
+    exists c v, get f (spf i) = Some (File c) /\ loads_s (c_bytes c) = Some v /\ loads_b (c_bytes c) = DVal v
+                /\ cid v = i /\ is_objb v = true /\ wsv f i = Some v.
+  Proof.
+    intros f i H Hi. destruct (H i Hi) as [c [v [H1 [H2 [H3 [H4 H5]]]]]]. exists c, v. repeat split; auto.
+    unfold wsv. rewrite H1. exact H2.
+  Qed.
+
+  Lemma Inv_Agr : forall f s, Inv f s -> ws_intact f ->
+    coll_free f (map snd (s_cache s) ++ file_vals f) -> Agr f s.
+  Proof.
+    intros f s [Hs Hf] Hw Hc. split.
+    - intros i v w Hin Hi Hv. apply (Hc i w v Hi Hv).
+      + apply in_or_app. left. apply (in_map snd) in Hin. exact Hin.
+      + rewrite (Hs _ _ Hin). destruct (ws_intact_wsv f i Hw Hi) as [c [v' [_ [_ [_ [Hid [_ Hv']]]]]]].
+        assert (Ew : w = v') by congruence. subst v'. symmetry. exact Hid.
+    - intros c Ec i v w Hin Hi Hv. apply (Hc i w v Hi Hv).
+      + apply in_or_app. right. unfold file_vals. rewrite Ec. apply (in_map snd) in Hin. exact Hin.
+      + rewrite (Hf c Ec _ _ Hin). destruct (ws_intact_wsv f i Hw Hi) as [c' [v' [_ [_ [_ [Hid [_ Hv']]]]]]].
+        assert (Ew : w = v') by congruence. subst v'. symmetry. exact Hid.
+  Qed.
+
+  Lemma agrees_aset : forall f c i v, agrees f c -> wsv f i = Some v -> agrees f (aset i v c).
+  Proof.
+    intros f c i v Hc Hv k x w Hin Hk Hw. apply In_aset in Hin. destruct Hin as [E|Hin]; [|eauto].
+    inversion E; subst. rewrite Hv in Hw. inversion Hw; reflexivity.
+  Qed.
+
+  Lemma agrees_dict_upd : forall f c new, agrees f c -> agrees f new -> agrees f (dict_upd c new).
+  Proof. intros f c new H1 H2 i v w Hin. apply In_dict_upd in Hin. destruct Hin; eauto. Qed.
+
+  Lemma ensure_read_agrees : forall f s, Agr f s -> agrees f (s_cache (ensure_read f s)).
+  Proof.
+    intros f s [H1 H2]. unfold Cache.ensure_read, Cache.read_cache. destruct (s_read s); auto.
+    destruct (cache_file f) as [c|] eqn:E; simpl; auto. apply agrees_dict_upd; auto.
+  Qed.
+
+  Lemma ensure_read_idem_file : forall f s, (forall c, cache_file f = Some c -> agrees f c) ->
+    agrees f (s_cache s) -> Agr f s.
+  Proof. intros; split; auto. Qed.
+
+  Lemma get_statepoint_ref : forall f s i,
+    Agr f s -> ws_intact f -> In i (listing f) ->
+    exists s' v w, get_statepoint f s true i = (s', Ok v) /\ wsv f i = Some w /\ norm v = norm w /\ Agr f s'.
+  Proof.
+    intros f s i HA Hw Hi.
+    destruct (ws_intact_wsv f i Hw Hi) as [c [w [G [Ls [Lb [Hid [Ho Hv]]]]]]].
+    pose proof (ensure_read_agrees f s HA) as H1.
+    unfold Cache.get_statepoint. destruct (alookup i (s_cache (ensure_read f s))) as [sp|] eqn:El.
+    - exists (ensure_read f s), sp, w. split; [reflexivity|]. split; [exact Hv|].
+      split; [apply alookup_In in El; eapply H1; eauto|]. split; [exact H1|apply (proj2 HA)].
+    - assert (Ews : sp_from_ws f true i = Ok w).
+      { unfold Cache.sp_from_ws. rewrite G, Ls. simpl. unfold Cache.cid. fold (cid w). rewrite Hid, str_eqb_refl. reflexivity. }
+      rewrite Ews. exists (reg (ensure_read f s) i w), w, w. split; [reflexivity|]. split; [exact Hv|].
+      split; [reflexivity|]. split; [simpl; apply agrees_aset; auto|apply (proj2 HA)].
+  Qed.
+
+  (* the reference answers, computed from the workspace alone *)
+  Definition ev_ws (ev : json -> bool) (f : fs) (i : str) : bool :=
+    match wsv f i with Some w => ev w | None => false end.
+
+  Lemma index_sps_ref : forall f ids s,
+    Agr f s -> ws_intact f -> (forall i, In i ids -> In i (listing f)) ->
+    exists s' l, index_sps f s ids = (s', Ok l) /\ Agr f s' /\
+      Forall2 (fun p i => fst p = i /\ exists w, wsv f i = Some w /\ norm (snd p) = norm w) l ids.
+  Proof.
+    induction ids as [|i r IH]; intros s HA Hw Hsub; simpl.
+    - exists s, []. split; [reflexivity|]. split; [exact HA|constructor].
+    - destruct (get_statepoint_ref f s i HA Hw (Hsub i (or_introl eq_refl))) as [s1 [v [w [E [Hv [Hn HA1]]]]]].
+      rewrite E. destruct (IH s1 HA1 Hw (fun j Hj => Hsub j (or_intror Hj))) as [s2 [l [E2 [HA2 F2]]]].
+      rewrite E2. exists s2, ((i, v) :: l). split; [reflexivity|]. split; [exact HA2|].
+      constructor; auto. simpl. split; eauto.
+  Qed.
+
+  Lemma filter_ref : forall ev f l ids,
+    (forall a b, norm a = norm b -> ev a = ev b) ->
+    Forall2 (fun p i => fst p = i /\ exists w, wsv f i = Some w /\ norm (snd p) = norm w) l ids ->
+    map fst (filter (fun p : str * json => ev (snd p)) l) = filter (ev_ws ev f) ids.
+  Proof.
+    intros ev f l ids Hev F. induction F as [|[k v] i l ids [Hk [w [Hw Hn]]] F IH]; simpl; auto.
+    simpl in Hk, Hn. subst k. unfold ev_ws at 1. rewrite Hw. rewrite (Hev v w Hn).
+    destruct (ev w); simpl; rewrite IH; reflexivity.
+  Qed.
+
+  Lemma open_sp_by_id_ref : forall f s i,
+    Agr f s -> ws_intact f -> In i (listing f) ->
+    exists s' v w, open_sp_by_id f s i = (s', Ok v) /\ wsv f i = Some w /\ norm v = norm w /\ Agr f s'.
+  Proof.
+    intros f s i HA Hw Hi.
+    destruct (ws_intact_wsv f i Hw Hi) as [c [w [G [Ls [Lb [Hid [Ho Hv]]]]]]].
+    pose proof (ensure_read_agrees f s HA) as H1.
+    unfold Cache.open_sp_by_id, Cache.open_id.
+    destruct (alookup i (s_cache (ensure_read f s))) as [sp|] eqn:El.
+    - assert (Hn : norm sp = norm w) by (apply alookup_In in El; eapply H1; eauto).
+      unfold Cache.handle_sp. simpl. rewrite (norm_objb _ _ Hn), Ho.
+      exists (ensure_read f s), sp, w. split; [reflexivity|]. split; [exact Hv|]. split; [exact Hn|].
+      split; [exact H1|apply (proj2 HA)].
+    - destruct (listed_exists f i Hi) as [Hex Hlen].
+      assert (Er : resolve f WSP i = inl i).
+      { unfold resolve, resolve_ids. assert (Hl : Nat.ltb (length i) 32 = false) by (apply Nat.ltb_ge; exact Hlen).
+        rewrite Hl, Hex. reflexivity. }
+      rewrite Er. unfold Cache.handle_sp. simpl.
+      assert (El2 : sp_load_view f i = Ok (w, w)).
+      { unfold Cache.sp_load_view, Cache.sp_load. rewrite G, Lb. unfold Cache.cid. fold (cid w).
+        rewrite Hid, str_eqb_refl. destruct w; try discriminate. reflexivity. }
+      rewrite El2. exists (reg (ensure_read f s) i w), w, w. split; [reflexivity|]. split; [exact Hv|].
+      split; [reflexivity|]. split; [simpl; apply agrees_aset; auto|apply (proj2 HA)].
+  Qed.
+
+  Lemma open_all_ref : forall f ids s,
+    Agr f s -> ws_intact f -> (forall i, In i ids -> In i (listing f)) ->
+    exists s' l, open_all f s ids = (s', l) /\ Agr f s' /\
+      Forall2 (fun p i => fst p = i /\ exists v w, snd p = Ok v /\ wsv f i = Some w /\ norm v = norm w) l ids.
+  Proof.
+    induction ids as [|i r IH]; intros s HA Hw Hsub; simpl.
+    - exists s, []. split; [reflexivity|]. split; [exact HA|constructor].
+    - destruct (open_sp_by_id_ref f s i HA Hw (Hsub i (or_introl eq_refl))) as [s1 [v [w [E [Hv [Hn HA1]]]]]].
+      rewrite E. destruct (IH s1 HA1 Hw (fun j Hj => Hsub j (or_intror Hj))) as [s2 [l [E2 [HA2 F2]]]].
+      rewrite E2. exists s2, ((i, Ok v) :: l). split; [reflexivity|]. split; [exact HA2|].
+      constructor; auto. simpl. split; eauto.
+  Qed.
+
+  (* every observation of a session with agreeing caches equals the reference computed from the workspace *)
+  Lemma observe_ref : forall f s ev,
+    Agr f s -> ws_intact f -> (forall a b, norm a = norm b -> ev a = ev b) ->
+    let o := snd (observe f s ev) in
+    o_find o = Ok (filter (ev_ws ev f) (listing f)) /\
+    o_len o = N.of_nat (length (listing f)) /\ o_ids o = listing f /\
+    Forall2 (fun p i => fst p = i /\ exists v w, snd p = Ok v /\ wsv f i = Some w /\ norm v = norm w)
+            (o_open o) (listing f).
+  Proof.
+    intros f s ev HA Hw Hev. unfold Cache.observe, Cache.find_ids.
+    destruct (index_sps_ref f (listing f) s HA Hw (fun i H => H)) as [s1 [l [E1 [HA1 F1]]]].
+    rewrite E1.
+    destruct (open_all_ref f (listing f) s1 HA1 Hw (fun i H => H)) as [s2 [l2 [E2 [HA2 F2]]]].
+    rewrite E2. simpl. repeat split; auto. f_equal. apply filter_ref; auto.
+  Qed.
+
+  (* two observations are the same up to the key order of the state points shown *)
+  Definition res_equiv (a b : result json) : Prop :=
+    match a, b with
+    | Ok x, Ok y => norm x = norm y
+    | Err e, Err e' => e = e'
+    | _, _ => False
+    end.
+  Definition obs_equiv (a b : obs) : Prop :=
+    o_find a = o_find b /\ o_len a = o_len b /\ o_ids a = o_ids b /\
+    Forall2 (fun x y => fst x = fst y /\ res_equiv (snd x) (snd y)) (o_open a) (o_open b).
+
+  Lemma wsv_without : forall f i, wsv (without_cache f) i = wsv f i.
+  Proof. intros f i. unfold wsv. rewrite get_without_cache by discriminate. reflexivity. Qed.
+
+  Lemma ws_intact_without : forall f, ws_intact f -> ws_intact (without_cache f).
+  Proof.
+    intros f H i Hi. unfold Cache.listing in Hi. rewrite listing_without_cache in Hi.
+    destruct (H i Hi) as [c [v Hc]]. exists c, v. rewrite get_without_cache by discriminate. exact Hc.
+  Qed.
+
+  Lemma Agr_fresh_without : forall f, Agr (without_cache f) fresh.
+  Proof.
+    intro f. split; [intros i v w []|]. intros c Hc. rewrite cache_file_without in Hc. discriminate.
+  Qed.
+
+  Lemma Forall2_common : forall A B (R1 R2 : A -> B -> Prop) (R : A -> A -> Prop) l1 l2 ids,
+    (forall x y i, R1 x i -> R2 y i -> R x y) -> Forall2 R1 l1 ids -> Forall2 R2 l2 ids -> Forall2 R l1 l2.
+  Proof.
+    intros A B R1 R2 R l1 l2 ids H F1. revert l2. induction F1; intros l2 F2; inversion F2; subst; constructor; eauto.
+  Qed.
+
+  Theorem transparent_Agr : forall f s ev,
+    Agr f s -> ws_intact f -> (forall a b, norm a = norm b -> ev a = ev b) ->
+    obs_equiv (snd (observe f s ev)) (snd (observe (without_cache f) fresh ev)).
+  Proof.
+    intros f s ev HA Hw Hev.
+    destruct (observe_ref f s ev HA Hw Hev) as [A1 [A2 [A3 A4]]].
+    destruct (observe_ref (without_cache f) fresh ev (Agr_fresh_without f) (ws_intact_without f Hw) Hev)
+      as [B1 [B2 [B3 B4]]].
+    assert (HL : listing (without_cache f) = listing f) by apply listing_without_cache.
+    rewrite HL in *.
+    assert (HF : filter (ev_ws ev (without_cache f)) (listing f) = filter (ev_ws ev f) (listing f)).
+    { apply filter_ext. intro i. unfold ev_ws. rewrite wsv_without. reflexivity. }
+    unfold obs_equiv. rewrite A1, A2, A3, B1, B2, B3, HF. repeat split; auto.
+    eapply Forall2_common; [|exact A4|exact B4].
+    intros x y i [Hx [v [w [Ex [Ew En]]]]] [Hy [v' [w' [Ey [Ew' En']]]]]. split; [congruence|].
+    rewrite Ex, Ey. simpl. rewrite wsv_without in Ew'. rewrite Ew in Ew'. inversion Ew'; subst. congruence.
+  Qed.
+
+  Theorem cache_transparent : forall f s ev,
+    Inv f s -> ws_intact f -> coll_free f (map snd (s_cache s) ++ file_vals f) ->
+    (forall a b, norm a = norm b -> ev a = ev b) ->
+    obs_equiv (snd (observe f s ev)) (snd (observe (without_cache f) fresh ev)).
+  Proof. intros f s ev HI Hw Hc Hev. apply transparent_Agr; auto. apply Inv_Agr; auto. Qed.
+
+
+  (* ================================================================ C. update_cache makes the file exact *)
+  (* the persistent cache lists exactly the ids of the workspace, each with its true state point *)
+  Definition exact (f : fs) : Prop :=
+    exists c, cache_file f = Some c /\ NoDup (map fst c) /\
+              (forall i, In i (map fst c) <-> In i (listing f)) /\
+              (forall i v w, In (i, v) c -> wsv f i = Some w -> norm v = norm w).
+
+  Lemma sp_from_ws_wsv : forall f i v, sp_from_ws f true i = Ok v -> wsv f i = Some v.
+  Proof.
+    intros f i v H. unfold Cache.sp_from_ws in H. unfold wsv.
+    destruct (get f (spf i)) as [[c|]|]; try (destruct (isdir f (jdir i)); discriminate).
+    destruct (loads_s (c_bytes c)) as [x|]; [|destruct (isdir f (jdir i)); discriminate].
+    simpl in H. destruct (str_eqb (Cache.cid frepr x) i); simpl in H; [|discriminate]. inversion H; reflexivity.
+  Qed.
+
+  Lemma add_from_ws_spec : forall f ids c c',
+    add_from_ws f c ids = Ok c' ->
+    (forall k, In k (map fst c') <-> In k (map fst c) \/ In k ids) /\
+    (NoDup (map fst c) -> NoDup (map fst c')) /\
+    (agrees f c -> agrees f c').
+  Proof.
+    induction ids as [|i r IH]; simpl; intros c c' H.
+    - inversion H; subst. repeat split; auto; tauto.
+    - destruct (sp_from_ws f true i) as [v|] eqn:E; [|discriminate].
+      destruct (IH _ _ H) as [K [ND AG]]. split; [|split].
+      + intro k. rewrite K, keys_aset. split; [intros [[->|H1]|H1]|intros [H1|[->|H1]]]; auto.
+      + intro Hn. apply ND. apply NoDup_keys_aset. exact Hn.
+      + intro Ha. apply AG. apply agrees_aset; auto. apply sp_from_ws_wsv. exact E.
+  Qed.
+
+  Lemma agrees_aremove_all : forall f ks c, agrees f c -> agrees f (aremove_all ks c).
+  Proof. intros f ks c H i v w Hin. apply In_aremove_all in Hin. eauto. Qed.
+
+  Lemma negb_mem_false : forall x l, In x l -> negb (str_mem x l) = false.
+  Proof. intros x l H. apply str_mem_In in H. rewrite H. reflexivity. Qed.
+
+  Lemma update_in_memory_spec : forall f s s',
+    update_in_memory f s = Ok s' ->
+    (forall k, In k (map fst (s_cache s')) <-> In k (listing f)) /\
+    (NoDup (map fst (s_cache s)) -> NoDup (map fst (s_cache s'))) /\
+    (agrees f (s_cache s) -> agrees f (s_cache s')) /\ s_read s' = s_read s.
+  Proof.
+    intros f s s' H. unfold Cache.update_in_memory in H.
+    match type of H with match ?X with _ => _ end = _ => destruct X as [c|] eqn:E; [|discriminate] end.
+    inversion H; subst. simpl. destruct (add_from_ws_spec _ _ _ _ E) as [K [ND AG]].
+    split; [|split; [|split]]; auto.
+    - intro k. rewrite K, keys_aremove_all, !filter_In.
+      destruct (str_mem k (map fst (s_cache s))) eqn:Ec; destruct (str_mem k (listing f)) eqn:El; simpl;
+        try (apply str_mem_In in Ec); try (apply str_mem_In in El);
+        try (assert (Hnc : ~ In k (map fst (s_cache s))) by (intro X; apply str_mem_In in X; congruence));
+        try (assert (Hnl : ~ In k (listing f)) by (intro X; apply str_mem_In in X; congruence));
+        intuition discriminate.
+    - intro Hn. apply ND. apply NoDup_keys_aremove_all. exact Hn.
+    - intro Ha. apply AG. apply agrees_aremove_all. exact Ha.
+  Qed.
+
+  (* the cache file write leaves the workspace alone *)
+  Lemma written_frame : forall f c f1 f2,
+    write_file f CACHETMP (cache_content c) = FOk f1 -> rename f1 CACHETMP CACHEP = FOk f2 ->
+    listing f2 = listing f /\ (forall i, wsv f2 i = wsv f i).
+  Proof.
+    intros f c f1 f2 H1 H2. destruct (cache_file_written _ _ _ _ H1 H2) as [_ G].
+    assert (Ht : get f1 CACHETMP = Some (File (cache_content c))).
+    { rewrite (get_write_file _ _ _ _ CACHETMP H1). reflexivity. }
+    split.
+    - unfold Cache.listing. apply listing_eq.
+      + apply G; discriminate.
+      + rewrite (children_rename_file [WS] f1 CACHETMP CACHEP _ f2 child_cachetmp child_cachep Ht) by (auto; discriminate).
+        apply (children_write_file [WS] f CACHETMP _ f1 child_cachetmp H1).
+    - intro i. unfold wsv. rewrite G by discriminate. reflexivity.
+  Qed.
+
+  Lemma update_cache_again : forall late f s c,
+    cache_file f = Some c ->
+    (forall k, In k (map fst c) <-> In k (listing f)) ->
+    (forall k, In k (map fst (s_cache s)) <-> In k (listing f)) ->
+    exists s', update_cache_gen late f s = (f, s', Ok None).
+  Proof.
+    intros late f s c Ec Kc Ks. unfold Cache.update_cache_gen, Cache.read_cache. rewrite Ec.
+    set (m := dict_upd (s_cache s) c).
+    assert (Km : forall k, In k (map fst m) <-> In k (listing f)).
+    { intro k. unfold m. rewrite keys_dict_upd, Ks, Kc. tauto. }
+    assert (Eu : update_in_memory f (mkSess m (s_read s)) = Ok (mkSess m (s_read s))).
+    { unfold Cache.update_in_memory. simpl.
+      assert (E1 : filter (fun i => negb (str_mem i (map fst m))) (listing f) = []).
+      { apply filter_nil_iff. intros x Hx. apply negb_mem_false. apply Km. exact Hx. }
+      assert (E2 : filter (fun i => negb (str_mem i (listing f))) (map fst m) = []).
+      { apply filter_nil_iff. intros x Hx. apply negb_mem_false. apply Km. exact Hx. }
+      rewrite E1, E2. reflexivity. }
+    rewrite Eu. simpl.
+    assert (Es : seteq_s (map fst c) (map fst m) = true).
+    { apply seteq_s_spec. intro x. rewrite Kc, Km. tauto. }
+    destruct late; rewrite Es; simpl; eauto.
+  Qed.
+
+  Definition file_nodup (f : fs) : Prop := forall c, cache_file f = Some c -> NoDup (map fst c).
+
+  Theorem update_cache_exact_gen : forall late f s f' s' r,
+    Inv f s -> NoDup (map fst (s_cache s)) -> file_nodup f -> ws_intact f ->
+    coll_free f (map snd (s_cache s) ++ file_vals f) ->
+    late = true \/ f9_state f s = false ->
+    update_cache_gen late f s = (f', s', Ok r) ->
+    exact f' /\ listing f' = listing f /\ (forall i, wsv f' i = wsv f i) /\
+    exists s'', update_cache_gen late f' s' = (f', s'', Ok None).
+  Proof.
+    intros late f s f' s' r HI Hnd Hfn Hw Hcf Hcond E.
+    pose proof (Inv_Agr f s HI Hw Hcf) as [HA1 HA2].
+    unfold Cache.update_cache_gen in E.
+    destruct (read_cache f s) as [s1 cf] eqn:Er.
+    assert (Hs1 : agrees f (s_cache s1) /\ NoDup (map fst (s_cache s1)) /\
+                  (forall k, In k (map fst (s_cache s)) -> In k (map fst (s_cache s1))) /\ cf = cache_file f /\
+                  (forall c, cf = Some c -> forall k, In k (map fst (s_cache s1)) <-> In k (map fst (s_cache s)) \/ In k (map fst c))).
+    { unfold Cache.read_cache in Er. destruct (cache_file f) as [c|] eqn:Ec; inversion Er; subst; simpl.
+      - split; [apply agrees_dict_upd; auto|]. split; [apply NoDup_keys_dict_upd; auto|].
+        split; [intros k Hk; apply keys_dict_upd; auto|]. split; auto.
+        intros c' Hc' k. inversion Hc'; subst. apply keys_dict_upd.
+      - repeat split; auto; discriminate. }
+    destruct Hs1 as [Ag1 [Nd1 [Sub1 [Hcf' Km]]]].
+    destruct (update_in_memory f s1) as [s2|e] eqn:Eu; [|discriminate].
+    destruct (update_in_memory_spec _ _ _ Eu) as [K2 [ND2 [AG2 _]]].
+    specialize (ND2 Nd1). specialize (AG2 Ag1).
+    match type of E with (if ?b then _ else _) = _ => destruct b eqn:Eb end.
+    - (* the file is rewritten *)
+      destruct (write_file f CACHETMP (cache_content (s_cache s2))) as [f1|] eqn:Ew; [|discriminate].
+      destruct (rename f1 CACHETMP CACHEP) as [f2|] eqn:En; [|discriminate].
+      inversion E; subst f' s' r.
+      destruct (cache_file_written _ _ _ _ Ew En) as [Hfile _].
+      destruct (written_frame _ _ _ _ Ew En) as [HL HV].
+      split; [|split; [exact HL|split; [exact HV|]]].
+      + exists (s_cache s2). split; [exact Hfile|]. split; [exact ND2|]. split.
+        * intro i. rewrite HL. apply K2.
+        * intros i v w Hin Hwv. rewrite HV in Hwv.
+          destruct (in_dec str_eq_dec i (listing f)) as [Hi|Hi].
+          -- eapply AG2; eauto.
+          -- exfalso. apply Hi. apply K2. apply (in_map fst) in Hin. exact Hin.
+      + apply (update_cache_again late f2 s2 (s_cache s2) Hfile).
+        * intro k. rewrite HL. apply K2.
+        * intro k. rewrite HL. apply K2.
+    - (* "Cache is up to date" *)
+      inversion E; subst f' s' r.
+      destruct cf as [c|]; [|discriminate].
+      assert (Ec : cache_file f = Some c) by (symmetry; exact Hcf').
+      apply negb_false_iff in Eb.
+      assert (Kc : forall k, In k (map fst c) <-> In k (listing f)).
+      { destruct late.
+        - rewrite seteq_s_spec in Eb. intro k. rewrite <- K2. apply Eb.
+        - destruct Hcond as [Hd|Hf9]; [discriminate|].
+          rewrite seteq_s_spec in Eb.
+          unfold Cache.f9_state in Hf9. rewrite Ec in Hf9.
+          assert (Hsub : subset_s (map fst (s_cache s)) (map fst c) = true).
+          { apply subset_s_spec. intros x Hx. apply Eb. apply Sub1. exact Hx. }
+          rewrite Hsub in Hf9. simpl in Hf9. apply negb_false_iff in Hf9. rewrite seteq_s_spec in Hf9. exact Hf9. }
+      split; [|split; [reflexivity|split; [reflexivity|]]].
+      + exists c. split; [exact Ec|]. split; [apply Hfn; exact Ec|]. split; [exact Kc|].
+        intros i v w Hin Hwv.
+        destruct (in_dec str_eq_dec i (listing f)) as [Hi|Hi].
+        * eapply HA2; eauto.
+        * exfalso. apply Hi. apply Kc. apply (in_map fst) in Hin. exact Hin.
+      + apply (update_cache_again late f s2 c Ec Kc K2).
+  Qed.
+
+
+  (* ---- the sessions reached by observing stay sound *)
+  Lemma index_sps_sound : forall f ids s s' r, Inv f s -> index_sps f s ids = (s', r) -> sound (s_cache s').
+  Proof.
+    induction ids as [|i ids IH]; simpl; intros s s' r H E.
+    - inversion E; subst. exact (proj1 H).
+    - destruct (get_statepoint f s true i) as [s1 [v|e]] eqn:E1.
+      + pose proof (get_statepoint_sound _ _ _ _ _ H E1) as H1.
+        destruct (index_sps f s1 ids) as [s2 [l|e]] eqn:E2; inversion E; subst;
+          (eapply IH; [split; [exact H1|exact (proj2 H)]|exact E2]).
+      + inversion E; subst. eapply get_statepoint_sound; eauto.
+  Qed.
+
+  Lemma open_sp_by_id_sound : forall f s i s' r, Inv f s -> open_sp_by_id f s i = (s', r) -> sound (s_cache s').
+  Proof.
+    intros f s i s' r H E. unfold Cache.open_sp_by_id, Cache.open_id in E.
+    pose proof (ensure_read_sound f s H) as H1.
+    destruct (alookup i (s_cache (ensure_read f s))) as [sp|].
+    - unfold Cache.handle_sp in E. simpl in E. inversion E; subst. exact H1.
+    - destruct (resolve f WSP i) as [m|e]; [|inversion E; subst; exact H1].
+      unfold Cache.handle_sp in E. simpl in E.
+      destruct (sp_load_view f m) as [[d v]|] eqn:El; inversion E; subst; [|exact H1].
+      apply sound_reg; auto. eapply sp_load_view_valid; eauto.
+  Qed.
+
+  Lemma open_all_sound : forall f ids s s' l, Inv f s -> open_all f s ids = (s', l) -> sound (s_cache s').
+  Proof.
+    induction ids as [|i ids IH]; simpl; intros s s' l H E.
+    - inversion E; subst. exact (proj1 H).
+    - destruct (open_sp_by_id f s i) as [s1 x] eqn:E1.
+      pose proof (open_sp_by_id_sound _ _ _ _ _ H E1) as H1.
+      destruct (open_all f s1 ids) as [s2 l2] eqn:E2. inversion E; subst.
+      eapply IH; [split; [exact H1|exact (proj2 H)]|exact E2].
+  Qed.
+
+  Lemma observe_sound : forall f s ev, Inv f s -> sound (s_cache (fst (observe f s ev))).
+  Proof.
+    intros f s ev H. unfold Cache.observe, Cache.find_ids.
+    destruct (index_sps f s (listing f)) as [s1 r] eqn:E1.
+    pose proof (index_sps_sound _ _ _ _ _ H E1) as H1.
+    assert (E : exists s2 l2, (let '(s1', r') := match r with Ok l => (s1, Ok (map fst (filter (fun p : str * json => ev (snd p)) l)))
+                                                     | Err e => (s1, Err e) end in
+               let '(s2, opens) := open_all f s1' (listing f) in
+               (s2, mkObs r' (N.of_nat (length (listing f))) (listing f) opens)) =
+              (s2, mkObs (match r with Ok l => Ok (map fst (filter (fun p : str * json => ev (snd p)) l)) | Err e => Err e end)
+                         (N.of_nat (length (listing f))) (listing f) l2) /\ open_all f s1 (listing f) = (s2, l2)).
+    { destruct (open_all f s1 (listing f)) as [s2 l2] eqn:E2. exists s2, l2. destruct r; simpl; rewrite E2; auto. }
+    destruct E as [s2 [l2 [E Eo]]]. rewrite E. simpl.
+    eapply open_all_sound; [split; [exact H1|exact (proj2 H)]|exact Eo].
+  Qed.
+
 End P.
+
+(* ================================================================ D. the present code (F9) *)
+Section NOW.
+  Variable frepr : fl -> str.
+  Variable loads_s : list N -> option json.
+  Variable loads_b : list N -> dec.
+
+  (* the theorem the property asks for — proved for the REPAIRED comparison (late = true) *)
+  Theorem update_cache_exact_when_fixed : forall f s f' s' r,
+    Inv frepr f s -> NoDup (map fst (s_cache s)) -> file_nodup f -> ws_intact frepr loads_s loads_b f ->
+    coll_free frepr loads_s f (map snd (s_cache s) ++ file_vals f) ->
+    update_cache_gen frepr loads_s true f s = (f', s', Ok r) ->
+    exact loads_s f' /\ listing f' = listing f /\
+    exists s'', update_cache_gen frepr loads_s true f' s' = (f', s'', Ok None).
+  Proof.
+    intros f s f' s' r HI Hn Hf Hw Hc E.
+    destruct (update_cache_exact_gen frepr loads_s loads_b true f s f' s' r HI Hn Hf Hw Hc (or_introl eq_refl) E)
+      as [H1 [H2 [_ H3]]]. auto.
+  Qed.
+
+  (* the code as it is: exact unless the call is issued in an F9 state *)
+  Theorem update_cache_exact_partial : forall f s f' s' r,
+    Inv frepr f s -> NoDup (map fst (s_cache s)) -> file_nodup f -> ws_intact frepr loads_s loads_b f ->
+    coll_free frepr loads_s f (map snd (s_cache s) ++ file_vals f) ->
+    f9_state f s = false ->
+    update_cache frepr loads_s f s = (f', s', Ok r) ->
+    exact loads_s f' /\ listing f' = listing f /\
+    exists s'', update_cache frepr loads_s f' s' = (f', s'', Ok None).
+  Proof.
+    intros f s f' s' r HI Hn Hf Hw Hc H9 E. unfold update_cache in *.
+    destruct (update_cache_exact_gen frepr loads_s loads_b F9_FIXED f s f' s' r HI Hn Hf Hw Hc (or_intror H9) E)
+      as [H1 [H2 [_ H3]]]. auto.
+  Qed.
+End NOW.
+
+(* ---- the witness: two jobs, update_cache, one job removed, new session, update_cache *)
+Definition ex_fr (x : fl) : str := [].
+Definition ex_u0 : json := JObj [([97%N], JInt 0)].
+Definition ex_u1 : json := JObj [([97%N], JInt 1)].
+Definition ex_tab : list (list N * json) := [(dumps ex_fr ex_u0, ex_u0); (dumps ex_fr ex_u1, ex_u1)].
+Definition ex_ls (b : list N) : option json := tab_lookup ex_tab b.
+Definition ex_lb (b : list N) : dec := match tab_lookup ex_tab b with Some v => DVal v | None => DJsonErr end.
+Definition ex_fs0 : fs := [([DOTSIGNAC], Dir); ([WS], Dir)].
+
+Definition ex_f9_fs : fs :=
+  let '(f1, s1, _) := op_init ex_fr ex_lb ex_fs0 fresh ex_u0 in
+  let '(f2, s2, _) := op_init ex_fr ex_lb f1 s1 ex_u1 in
+  let '(f3, s3, _) := update_cache ex_fr ex_ls f2 s2 in
+  let '(f4, _, _) := op_remove ex_fr f3 s3 ex_u0 in
+  f4.
+
+Lemma ex_f9_fs_val : exists f, ex_f9_fs = f /\ listing f = [calc_id ex_fr ex_u1] /\
+  cache_file f = Some [(calc_id ex_fr ex_u0, ex_u0); (calc_id ex_fr ex_u1, ex_u1)].
+Proof. eexists. split; [vm_compute; reflexivity|]. split; vm_compute; reflexivity. Qed.
+
+Theorem update_cache_exact_refuted :
+  exists f, Inv ex_fr f fresh /\ ws_intact ex_fr ex_ls ex_lb f /\ file_nodup f /\
+            (exists s', update_cache ex_fr ex_ls f fresh = (f, s', Ok None)) /\
+            ~ exact ex_ls f.
+Proof.
+  destruct ex_f9_fs_val as [f [Ef [HL HC]]]. exists f.
+  assert (Hid0 : calc_id ex_fr ex_u0 <> calc_id ex_fr ex_u1) by (vm_compute; discriminate).
+  split; [|split; [|split; [|split]]].
+  - split; [apply sound_nil|]. intros c Hc. rewrite HC in Hc. inversion Hc; subst.
+    intros i v [H|[H|[]]]; inversion H; subst; reflexivity.
+  - intros i Hi. rewrite HL in Hi. destruct Hi as [<-|[]].
+    subst f. vm_compute. eexists _, _. repeat split; reflexivity.
+  - intros c Hc. rewrite HC in Hc. inversion Hc; subst. simpl.
+    constructor; [intros [H|[]]; auto|]. constructor; [intros []|constructor].
+  - subst f. vm_compute. eexists. reflexivity.
+  - intros [c [Hc [_ [K _]]]]. rewrite HC in Hc. inversion Hc; subst.
+    assert (Hin : In (calc_id ex_fr ex_u0) (listing ex_f9_fs)) by (apply K; simpl; auto).
+    rewrite HL in Hin. destruct Hin as [H|[]]. auto.
+Qed.
+
+(* ================================================================ E. licence for the correspondence *)
+Lemma norm_cid : forall fr a b, norm a = norm b -> calc_id fr a = calc_id fr b.
+Proof. intros fr a b H. unfold calc_id, canon. rewrite H. reflexivity. Qed.
+
+Section HOLDS.
+  Variable c : case_C08.
+  Notation fr := (fr8 c).
+  Notation ls := (ls8 c).
+  Notation lb := (lb8 c).
+
+  Lemma mstep_inv : forall f s o f' s' r, Inv fr f s -> mstep c (f, s) o = ((f', s'), r) -> Inv fr f' s'.
+  Proof.
+    intros f s o f' s' r H E. destruct o; simpl in E.
+    - destruct (op_init fr lb f s sp) as [[f1 s1] r1] eqn:E1. inversion E; subst. eapply inv_init; eauto.
+    - destruct (op_remove fr f s sp) as [[f1 s1] r1] eqn:E1. inversion E; subst. eapply inv_remove; eauto.
+    - destruct (op_rekey fr lb f s old new) as [[f1 s1] r1] eqn:E1. inversion E; subst. eapply inv_rekey; eauto.
+    - destruct (update_cache fr ls f s) as [[f1 s1] r1] eqn:E1.
+      pose proof (inv_update_cache_gen fr ls _ _ _ _ _ _ H E1) as H1.
+      destruct r1 as [[n|]|e]; inversion E; subst; auto.
+      split; [apply sound_nil|exact (proj2 H1)].
+    - inversion E; subst. eapply inv_restart; eauto.
+    - destruct (unlink f CACHEP) as [f1|e] eqn:E1; inversion E; subst; auto. eapply inv_delcache; eauto.
+    - destruct (observe fr ls lb f s (ev8 c)) as [s1 ob] eqn:E1. inversion E; subst.
+      split; [|exact (proj2 H)]. pose proof (observe_sound fr ls lb f s (ev8 c) H) as H1. rewrite E1 in H1. exact H1.
+    - inversion E; subst. clear E.
+      destruct (isdir f (jdir (cid8 c a)) && negb (exists_ f (jdir (cid8 c b)))); auto.
+      destruct (rename f (jdir (cid8 c a)) (jdir (cid8 c b))) as [f1|e] eqn:E1; auto.
+      eapply Inv_ws_only; [exact (proj2 H)| |exact (proj1 H)]. eapply rename_ws_only; eauto; reflexivity.
+  Qed.
+
+  Lemma cache_le_sound : forall x y, sound fr x -> cache_le c y x = true -> sound_b c y = true.
+  Proof.
+    intros x y Hx H. unfold sound_b. unfold cache_le in H. rewrite forallb_forall in *. intros [k v] Hin.
+    specialize (H _ Hin). simpl in *. destruct (alookup k x) as [w|] eqn:E; [|discriminate].
+    apply alookup_In in E. apply Hx in E. apply str_eqb_eq. unfold cid8. unfold json_same8 in H.
+    apply json_eqb_eq in H. rewrite (norm_cid fr v w H). exact E.
+  Qed.
+
+  (* when model and implementation agree on a history, every cache file the implementation wrote is sound *)
+  Lemma run_cmp_sound : forall steps f s, Inv fr f s -> run_cmp c (f, s) steps = true ->
+    forallb (fun x => match st_obs x with Some o => clause_sound c o | None => true end) steps = true.
+  Proof.
+    induction steps as [|x r IH]; intros f s H E; simpl; auto.
+    simpl in E. destruct (mstep c (f, s) (st_op x)) as [[f1 s1] mr] eqn:E1.
+    apply andb_true_iff in E. destruct E as [E E3]. apply andb_true_iff in E. destruct E as [_ E2].
+    pose proof (mstep_inv _ _ _ _ _ _ H E1) as H1.
+    rewrite (IH f1 s1 H1 E3), andb_true_r.
+    destruct (st_obs x) as [o|]; auto.
+    unfold sobs_same in E2. apply andb_true_iff in E2. destruct E2 as [_ E2].
+    unfold clause_sound. simpl in E2. unfold file_same in E2.
+    destruct (cache_file f1) as [k|] eqn:Ek; destruct (so_file o) as [k'|]; try discriminate; auto.
+    unfold cache_same in E2. apply andb_true_iff in E2. destruct E2 as [_ E2].
+    eapply cache_le_sound; [|exact E2]. exact (proj2 H1 k Ek).
+  Qed.
+
+  Theorem model_holds_sound : mismatch_C08 c = false ->
+    forallb (fun x => match st_obs x with Some o => clause_sound c o | None => true end) (c8_steps c) = true.
+  Proof.
+    intro H. unfold mismatch_C08, mismatch8 in H. apply negb_false_iff in H.
+    eapply run_cmp_sound; [|exact H]. split; [apply sound_nil|]. intros k Hk. discriminate.
+  Qed.
+End HOLDS.
